@@ -26,19 +26,19 @@ def chk(pid, engine, cat, text, note, tech, ref):
       "level_claimed":{"category":cat,"text":text,"design_ref":ref},"level_note":note,"technique":tech}
 CHECKS = {
 "C12": chk("C12","modsim","exploration",
- "Seeded search over generated programs x partitions into 2-4 modules x file orders (all permutations in the thorough tier) x per-process entropy streams x behaviour-preserving perturbations, executed by the real penne CLI and real lli in fresh processes under a simulated OS, plus module histories (interleaved unrelated programs, failing and abandoned modules) through one real Compiler. Oracles: accepted, behaves like the unsplit program, order- and entropy-independent, per-module IR valid (llvm-as), pub functions external, results equal to a fresh Compiler's, every reference outside the model's visible set rejected with the right code in the right file. Sampling, not proof; programs come from one generator.",
+ "Seeded search over generated programs x partitions into 2-8 modules (empty modules, diamonds, cycles, same-named files, ../ and case-only layouts) x file orders (all permutations up to 4 files in the thorough tier) x per-process entropy streams x behaviour-preserving perturbations, executed by the real penne CLI and real lli in fresh processes under a simulated OS; every sixth program is also built with the real clang (-O0/-O2, unsplit and two orders); plus module histories through one real Compiler (interleaved unrelated programs, rejected / linting / back-end-refused / abandoned modules, read-only API calls at odd moments, retargeting to wasm at the start or in the middle). Oracles: accepted, behaves like the unsplit program, order- and entropy-independent, per-module IR valid (llvm-as) with matching calling conventions, pub functions external, results equal to a fresh Compiler's, the linked program defines what every module defined, every reference outside the model's visible set (five reference positions) rejected with the right code in the right file; four hand-written hygiene templates carry the known findings. Sampling, not proof; programs come from one generator.",
  "Trusted: the generator's programs are valid (checked: the unsplit program must compile and run), lli/llvm-as as reference tools, the 10-line visibility model, simos.so's getrandom interposition.",
  "deterministic simulation: entropy seam + exhaustive file-order schedules + module-history fault injection, refinement against the unsplit program","DESIGN.md section 3"),
 "C13": chk("C13","detsim","exploration",
- "Decides the determinism clause by owning every source of run-to-run variation: each input set (whole corpus, import samples in all orders, generated multi-module sets with injected mistakes, seeded mutations incl. multi-byte/CRLF/truncation) is compiled repeatedly in fresh processes of the real CLI, each under its own entropy stream, simulated clock and pid, several environments, all colour x charset configurations, and (thorough) with ASLR on; exit status, stdout, stderr and every IR file must be byte-identical. Monitors, on every diagnostic seen, that it renders in all configurations and that every Location lies inside its file with the span starting on the reported line. Not checked: catalogue membership, 'covers the offending text'.",
+ "Decides the determinism clause by owning every source of run-to-run variation: each input set (whole corpus, import samples in all orders, a zoo of expression x context programs, generated multi-module sets with injected mistakes, seeded mutations incl. multi-byte/CRLF/BOM/odd line breaks/truncation) is compiled repeatedly in fresh processes of the real CLI, each under its own entropy stream, simulated clock and pid, several environments, an 'ambient' run (other directory, file times, clutter, executable name, HOME/TMPDIR/locale), a 'delivery' run (named pipe, path spelling, absolute path), all colour x charset configurations, and (thorough) with ASLR on; exit status, stdout, stderr and every IR file must be byte-identical. Monitors on every diagnostic seen: every code is in docs/errors.md (eight known exceptions), a failing compilation has a coded diagnostic, every Location lies inside its file, the rendered header is the start of a location counted in line feeds, underlines stand under the labelled text (terminal columns), quoted lines are the source's, colour only colours, secondary locations point at the named declaration where the language fixes it. 'Covers the offending text' is checked where the diagnostic or the constructed input names the text, not per error kind.",
  "Trusted: the simulator owns all variation sources (getrandom, clock, pid, env, layout); a compiler panic is compared as panic@file:line because the Rust runtime prints the OS thread id.",
  "deterministic simulation: entropy/clock/pid/environment/ASLR seams varied around fixed inputs, byte-equality across runs","DESIGN.md section 4"),
 "C18": chk("C18","clisim","fault_enumeration",
- "The real CLI runs against a simulated OS: for each scenario (subcommand x input kind x out-dir kind x options) a fault-free census run records every intercepted call; then every (call site, applicable fault) pair is injected alone - EINTR and short transfers (must be absorbed: run indistinguishable from fault-free) and hard errors on source/config reads, mkdir, artefact open/write, pipe, spawn (must give non-zero exit, never exit 0 with a missing or truncated artefact) - plus scripted backends (exit codes, signals, partial reads, output bytes), both forced parent/child orders on the IR pipe, exhaustive backend resolution (flag x env x config), and a seeded swarm of multi-fault plans. A reference model of ~40 lines predicts the exit status from scenario + fired faults.",
+ "The real CLI runs against a simulated OS: for each scenario (subcommand x input kind x out-dir kind x options) a fault-free census run records every intercepted call; then every (call site, applicable fault) pair is injected alone - EINTR and short transfers (must be absorbed: run indistinguishable from fault-free) and hard errors on source/config reads, mkdir, artefact open/write, pipe, spawn, wait (must give non-zero exit, never exit 0 with a missing or truncated artefact) - plus scripted backends (exit codes, signals, partial reads, output bytes; the backend's status decides), both forced parent/child orders on the IR pipe, exhaustive backend resolution (flag x env x config), crash (SIGKILL at a call site, torn writes) and restart, the same command twice in one directory, two overlapping invocations under one fixed schedule (one held at a gate), file-system and delivery variants (named pipes, absolute inputs, colliding names, unwritable stdout under --silent, non-UTF-8 names), real lli and real clang (-O2) cross-checks, and a seeded swarm of multi-fault plans. A reference model of ~40 lines predicts the exit status from scenario + fired faults.",
  "Trusted: LD_PRELOAD interposition reaches every libc call penne makes (std goes through the PLT; census shows the expected calls); the stub backend stands in for clang/lli in fault runs and is cross-checked against real lli; close() errors are not injected (std ignores them).",
  "deterministic simulation with fault injection: syscall-level single-fault enumeration + seeded multi-fault swarm + scripted backend process, reference model of the exit status","DESIGN.md section 5"),
 "C19": chk("C19","fuzzsim","exploration",
- "Seeded search over the fuzzer's random stream: the real `penne fuzz tokens` CLI (fresh process per run) and the real fill_to_capacity_with_tokens (fresh thread per run) are executed under a simulated OS that serves getrandom from a per-run seed, sizes 1-64 KB; every output is lexed by both real lexers. Thousands (quick) to hundreds of thousands (thorough) of distinct outputs; a failure replays exactly from its entropy seed and is shrunk to a minimal snippet. Sampling, not proof.",
+ "Seeded search over the fuzzer's random stream: the real `penne fuzz tokens` CLI (fresh process per run, sizes 1-64 KB and 100/300/1000 KB, a fifth of the file-writing runs with a write fault injected: the tool may fail, not claim success with less) and the real fill_to_capacity_with_tokens (fresh thread per run) are executed under a simulated OS that serves getrandom from a per-run seed; every output is lexed by both real lexers. Thousands (quick) to hundreds of thousands (thorough) of distinct outputs; a failure replays exactly from its entropy seed and is shrunk to a minimal snippet. Sampling, not proof.",
  "Trusted: simos.so's getrandom interposition is the only entropy the fuzzer reads; pworker calls the same lexer entry points as the CLI; the distribution explored is the fuzzer's own.",
  "deterministic simulation: entropy seam (LD_PRELOAD getrandom) + seeded search, both real lexers as oracle, ddmin shrinking","DESIGN.md section 6"),
 }
@@ -58,7 +58,7 @@ def main():
      "hooks":{"guard":"penne_verif","enable":"no source hooks are needed: every seam is external (LD_PRELOAD simos.so, --backend/PENNE_* stub backend, public library API); checks build /repo's working tree with `cargo build --features alpha,llvm-sys` via tools/build.sh","baseline_off_cmd":"cd /repo && cargo test --workspace --no-fail-fast --offline","source_commits":[],"add_only":True},
      "engines":[e for e in ENGINES if e["serves_properties"][0] in have],
      "checks":[CHECKS[p] for p in have],
-     "notes":"./check selftest proves determinism of the simulator (same seed twice, different worker counts, different PYTHONHASHSEED). Repairs of genuine defects found by these checks are the `fix:` commits in /repo, listed in known_findings.txt. tools/regress.sh is the regression net for them.",
+     "notes":"./check selftest proves determinism of the simulator (same seed twice, different worker counts, different PYTHONHASHSEED). Repairs of genuine defects are the 15 `fix:` commits in /repo, listed as `fixed:` in known_findings.txt together with the 12 `known:` findings; tools/regress.sh is the regression net for them; sensitivity/ holds deliberate breaks incl. the reverse patch of every repair; seeded/ the independently written breaking changes.",
      "not_applicable":sorted(na,key=lambda x:x["property_id"])}
     json.dump(m,open(os.path.join(HERE,"MANIFEST.json"),"w"),indent=1)
     print("MANIFEST: checks", have)
